@@ -364,6 +364,23 @@ pub fn c03(opts: &Opts, out: &mut Out) {
         }
         shapes.insert((2, "same-statement", bi));
     }
+    // a batch with more chunks than fit a byte (and, in the thorough tier, more members than fit two): sizes "beyond
+    // any internal chunk limit" include those at which a chunk counter would overflow a narrow type
+    {
+        let t0 = std::time::Instant::now();
+        merlin::tap::set_shadow(false);
+        let tiny = make_valid(2, 1, 1, 1, false, 0, &mut rng);
+        let tiny_bad = make_invalid(&tiny, 0);
+        for k in [65_537usize] {
+            let mut ms: Vec<&Tmpl> = vec![&tiny; k];
+            check_batch(out, "C03", "more-than-256-chunks", &ms, k, k, VerifyAction::VerifyOnly);
+            ms[k - 1] = &tiny_bad;
+            check_batch(out, "C03", "more-than-256-chunks one-invalid@last", &ms, k, k, VerifyAction::VerifyOnly);
+            shapes.insert((k, "more-than-256-chunks", 0));
+        }
+        merlin::tap::set_shadow(true);
+        out.stat("more_than_256_chunks_ms", t0.elapsed().as_millis() as usize);
+    }
     // MANY large aggregates in one batch (an implementation may budget a chunk by the total number of points or
     // scalars rather than by members): every member is examined and answered
     {
